@@ -166,7 +166,7 @@ func (w *l1World) checkSnapshots() error {
 
 func TestC11(t *testing.T) {
 	col := stats.New("C11", t.Name(),
-		"push histories of 1-3 clients on 1-2 keys of drawn kinds against the real server; the GATE of the fake MongoDB holds every background snapshot update at its first command (find on -_-Snapshots) and releases the held updates at drawn later points and in a drawn order, so that updates run after later pushes were committed or compete for the update lock; "+
+		"push histories of 1-3 clients on 1-2 keys of drawn kinds against the real server; the GATE of the fake MongoDB holds every background snapshot update either at its first command (find on -_-Snapshots: it has read nothing yet) or - drawn per case - at the REPLY of its read of the operation log (the state and version it will store are already decided), and releases the held updates at drawn later points and in a drawn order, so that updates run after later pushes were committed or compete for the update lock; "+
 			"oracle after every release and at the end: every document in -_-Snapshots {duid, sseq=v} imports into a fresh instance whose state equals refmodel(log[1..v]); the user-collection document (without _id/_orda_ver_) equals the JSON view of refmodel(log[1.._orda_ver_]); over the write history of the user collection the recorded version never decreases; "+
 			"the server's rebuild (latest snapshot + later operations) reflects the end of the log and equals the replay of the whole log; "+
 			"non-trivial = >=1 held update was released after >=1 later push had been committed, or >=2 held updates were released in non-arrival order; distinct = hash of the action sequence")
@@ -185,10 +185,21 @@ func TestC11(t *testing.T) {
 		defer w.close()
 		defer w.env.Mongo.DisableGate()
 		c.j.Header = map[string]interface{}{"kinds": kinds, "id_seed": idseed}
+		// where a background update is held: on arrival of its first command (it has read nothing yet), or
+		// at the reply of its read of the operation log (what it is going to store is already decided)
+		lateReply := rapid.Bool().Draw(rt, "hold_at_reply_of_log_read")
+		c.j.Header = map[string]interface{}{"kinds": kinds, "id_seed": idseed, "hold_at_reply_of_log_read": lateReply}
 		gateOn := func() {
-			w.env.Mongo.EnableGate(func(cmd *fakemongo.Cmd) bool {
-				return cmd.Verb == "find" && strings.HasSuffix(cmd.NS, ".-_-Snapshots")
-			})
+			if lateReply {
+				// only reads issued by background work: a client request in flight is never held
+				w.env.Mongo.EnableReplyGate(func(cmd *fakemongo.Cmd) bool {
+					return cmd.Verb == "find" && strings.HasSuffix(cmd.NS, ".-_-Operations") && w.env.InFlight() == 0
+				})
+			} else {
+				w.env.Mongo.EnableGate(func(cmd *fakemongo.Cmd) bool {
+					return cmd.Verb == "find" && strings.HasSuffix(cmd.NS, ".-_-Snapshots")
+				})
+			}
 			w.waitBG = false
 		}
 		gateOff := func() {
@@ -276,6 +287,11 @@ func TestC11(t *testing.T) {
 		}
 		for _, k := range kinds {
 			labels = append(labels, "kind="+string(k))
+		}
+		if lateReply {
+			labels = append(labels, "held-at-reply-of-log-read")
+		} else {
+			labels = append(labels, "held-at-first-command")
 		}
 		col.Case(lateRelease || outOfOrder, canon.String(), labels, func() interface{} {
 			return map[string]interface{}{"kinds": kinds, "actions": canon.String(), "snapshots_stored": nsnap}
